@@ -506,8 +506,22 @@ def check_property(prop, tier, only=None, jobs=None, quiet=False):
             kid = tag[3:]
             k = [x for x in kf_by_unit[u["id"]] if x["id"] == kid][0]
             if r["status"] == "violation":
-                kf_lines.append("KNOWN-FINDING: property=%s %s [unit %s, obligations %s]" % (
-                    prop, k["what"], u["id"], ",".join(f["property"] for f in r["failed"][:3])))
+                # only the obligations the entry names are the known finding; anything else failing in the
+                # same region is a different violation and is reported as such
+                exp = k.get("expect", [])
+                def known(f):
+                    t = (f.get("property") or "") + " " + (f.get("description") or "")
+                    return any(e in t for e in exp) if exp else True
+                other = [f for f in r["failed"] if not known(f)]
+                if any(known(f) for f in r["failed"]):
+                    kf_lines.append("KNOWN-FINDING: property=%s %s [unit %s, obligations %s]" % (
+                        prop, k["what"], u["id"], ",".join(f["property"] for f in r["failed"] if known(f))[:200]))
+                if other:
+                    r2 = dict(r, failed=other)
+                    f = pick_failure(other)
+                    ok, info = native_replay(prop, u, f, cfg, rundir)
+                    path = write_replay(prop, u, f, ok, info, r.get("checker_cmd"), other)
+                    violations.append((r2, f, ok, path))
             elif r["status"] == "holds":
                 kf_lines.append("NOTE: known finding %s of %s no longer fails (stale entry)" % (kid, prop))
             else:
